@@ -172,6 +172,13 @@ impl Ctx {
         if !oracle.starts_with(&self.property) {
             return;
         }
+        // A panic while the process-wide format context is locked poisons that lock, after which EVERY later
+        // formatting call in this process panics with a PoisonError. Those are victims of an earlier panic
+        // (reported by the run in which it happened), not violations of their own.
+        if msg.contains("PoisonError") {
+            self.probe("poisoned-lock-victim");
+            return;
+        }
         self.t(&format!("VIOLATION {} {}", oracle, msg));
         self.violations.push(Violation { oracle: oracle.to_string(), step: self.step, msg, signature });
     }
